@@ -308,12 +308,90 @@ theorem entry_insert_coprime (s : Finset Nat) (o v w : Nat) (h : Nat.Coprime v w
 
 theorem checkGCD_eq (ns : List Nat) (hpos : ∀ n ∈ ns, 0 < n) :
     checkGCD ns = .ok
-      ((ns.map fun n => checkGCDKey n (entry ns.toFinset 1 n)).any (·.1),
-        ns.map fun n => checkGCDKey n (entry ns.toFinset 1 n)) := by
+      ((ns.map fun n => checkGCDKeyR ns n (entry ns.toFinset 1 n)).any (·.1),
+        ns.map fun n => checkGCDKeyR ns n (entry ns.toFinset 1 n)) := by
   unfold checkGCD checkGCDV
   rw [batchGCD_exec ns none hpos]
   simp only [bind, Except.bind, otherVal, zipWith_map_self]
   rfl
+
+theorem properFromOthers_some (n : Nat) : ∀ (l : List Nat) (h : Nat),
+    properFromOthers n l = some h → 1 < h ∧ h < n ∧ h ∣ n
+  | [], _, hh => by simp [properFromOthers] at hh
+  | m :: rest, h, hh => by
+    unfold properFromOthers at hh
+    split at hh
+    · rename_i hc
+      simp only [Option.some.injEq] at hh
+      subst hh
+      exact ⟨hc.1, hc.2, Nat.gcd_dvd_left _ _⟩
+    · exact properFromOthers_some n rest h hh
+
+theorem properFromOthers_none (n : Nat) : ∀ (l : List Nat),
+    properFromOthers n l = none → ∀ m ∈ l, ¬ (1 < Nat.gcd n m ∧ Nat.gcd n m < n)
+  | [], _, _, hm => by simp at hm
+  | m' :: rest, hh, m, hm => by
+    unfold properFromOthers at hh
+    split at hh
+    · simp at hh
+    · rename_i hc
+      rcases List.mem_cons.mp hm with rfl | hin
+      · exact hc
+      · exact properFromOthers_none n rest hh m hin
+
+/-- everything in the extra pair divides `n`. -/
+theorem extraSplit_dvd (ns : List Nat) (n g : Nat) : ∀ f ∈ extraSplit ns n g, f ∣ n := by
+  intro f hf
+  unfold extraSplit at hf
+  split at hf
+  · split at hf
+    · rename_i h hh
+      have hd := (properFromOthers_some n ns h hh).2.2
+      simp only [List.mem_cons, List.not_mem_nil, or_false] at hf
+      rcases hf with rfl | rfl
+      · exact hd
+      · exact Nat.div_dvd_of_dvd hd
+    · simp at hf
+  · simp at hf
+
+/-- after the D2 repair: a flagged key has a PROPER divisor among its recorded factors unless
+the modulus divides another (distinct) modulus of the batch. -/
+theorem checkGCDKeyR_proper (ns : List Nat) (n : Nat) (hn : 1 < n)
+    (hflag : entry ns.toFinset 1 n ≠ 1) :
+    (∃ f ∈ (checkGCDKeyR ns n (entry ns.toFinset 1 n)).2, 1 < f ∧ f < n) ∨
+      ∃ m ∈ ns, m ≠ n ∧ n ∣ m := by
+  have hdvd := entry_dvd ns.toFinset 1 n
+  have hpos' := entry_pos ns.toFinset 1 n (by omega)
+  have hle := Nat.le_of_dvd (by omega) hdvd
+  unfold checkGCDKeyR
+  rw [if_neg hflag]
+  by_cases hgn : entry ns.toFinset 1 n = n
+  · unfold extraSplit
+    rw [if_pos hgn]
+    split
+    · rename_i h hh
+      have := properFromOthers_some n ns h hh
+      exact Or.inl ⟨h, by simp, this.1, this.2.1⟩
+    · rename_i hnone
+      right
+      by_contra hcon
+      apply hflag
+      rw [entry_eq_one_iff]
+      refine ⟨Nat.coprime_one_right n, fun w hw hne => ?_⟩
+      have hwm : w ∈ ns := List.mem_toFinset.mp hw
+      have hnot := properFromOthers_none n ns hnone w hwm
+      have hgd : Nat.gcd n w ∣ n := Nat.gcd_dvd_left _ _
+      have hgle := Nat.le_of_dvd (by omega) hgd
+      have hgpos : 0 < Nat.gcd n w := Nat.gcd_pos_of_pos_left _ (by omega)
+      rcases Nat.lt_or_ge 1 (Nat.gcd n w) with h1 | h1
+      · have : Nat.gcd n w = n := by
+          by_contra hne2
+          exact hnot ⟨h1, by omega⟩
+        exfalso
+        apply hcon
+        exact ⟨w, hwm, hne, Nat.gcd_eq_left_iff_dvd.mp this⟩
+      · exact Nat.coprime_iff_gcd_eq_one.mpr (by omega)
+  · exact Or.inl ⟨entry ns.toFinset 1 n, by simp, by omega, by omega⟩
 
 theorem checkGCDN1_eq (bound : Nat) (ns : List Nat) (hpos : ∀ n ∈ ns, 2 ≤ n) :
     checkGCDN1 bound ns = .ok
